@@ -100,9 +100,39 @@ def sigop_cases(ctx, n):
             cnt = lambda: V.minimal_push(A.scriptnum(rng.choice([0, 1, 2, 3, 20, 21, 500, 2**31 - 3, 2**31 - 2, 2**31 - 1, 2**31, -1, 2**40])))
             pushes = pushes + (cnt() if rng.random() < 0.5 else b"") + b"".join(V.rand_push(rng) for _ in range(rng.randint(0, 3))) + cnt()
         lock = pushes + bytes([op]) + (b"" if rng.random() < 0.5 else bytes([rng.choice([0xac, 0xae, 0x51])]))
+        if rng.random() < 0.25:
+            # raw bytes after a top-level OP_RETURN: never executed, but parsed, and part of the script code
+            # that signature removal and hashing walk over (1-3 bytes incl. truncated push headers)
+            lock += b"\x6a" + bytes(rng.choice([0x00, 0x01, 0x02, 0x4b, 0x4c, 0x4d, 0x4e, 0x51, 0x6a, 0xff]) for _ in range(rng.randint(1, 3)))
         c = V.mkcase("sig%d" % k, V.rand_script(rng, rng.randint(0, 2)) if rng.random() < 0.3 else b"", lock, rng.getrandbits(16), "sigops")
         c["ver"], c["lt"], c["seq"] = V.rand_txctx(rng)
         out.append(c)
+    return out
+
+
+def sigop_tail_cases(ctx):
+    """signature opcodes reached with plausible (non-empty, legacy hash type) signature and key pushes, the script
+    ending in a top-level OP_RETURN followed by exactly one raw byte - every value that is a push header or an
+    opcode; both eras, no encoding flags (so that the digest / signature-removal code is reached)"""
+    rng = random.Random(ctx.seed * 19 + 5)
+    out = []
+    G = A.FLAGBITS["UTXO_AFTER_GENESIS"]
+    sig = bytes([0x30, 0x06, 0x02, 0x01, 0x01, 0x02, 0x01, 0x01, 0x01])
+    key = bytes([2]) + bytes(range(1, 33))
+    k = 0
+    for b in list(range(0x00, 0x4f)) + [0x51, 0x60, 0x6a, 0xac, 0xff]:
+        for op in (0xac, 0xad, 0xae, 0xaf):
+            fl = rng.choice([0, G])
+            if op in (0xac, 0xad):
+                unlock = V.minimal_push(sig) + V.minimal_push(key)
+                lock = bytes([op])
+            else:
+                unlock = b"\x00" + V.minimal_push(sig)
+                lock = b"\x51" + V.minimal_push(key) + b"\x51" + bytes([op])
+            c = V.mkcase("tail%d" % k, unlock, lock + b"\x6a" + bytes([b]), fl, "sigops-tail")
+            c["ver"], c["lt"], c["seq"] = V.rand_txctx(rng)
+            out.append(c)
+            k += 1
     return out
 
 
@@ -149,6 +179,7 @@ def run(ctx):
     cases = model_cases + byte_cases(ctx, ctx.pick(2500, 65536), ctx.pick(1500, 60000))
     cases += V.random_cases(ctx, ctx.pick(1200, 40000), tag="rnd")
     cases += sigop_cases(ctx, ctx.pick(1500, 40000))
+    cases += sigop_tail_cases(ctx)
     cases += odd_context_cases(ctx, ctx.pick(600, 10000))
     cases += V.mutated_vectors(ctx, ctx.pick(400, 10000))
     # signature scenarios over real transaction shapes (1-3 inputs, 0-3 outputs, every signed position, all hash
